@@ -1041,6 +1041,26 @@ def run_generate(env, rng, n):
                            what="correspondence: ZSTD_mergeBlockDelimiters differs from merge_delims of the model")
             else:
                 ctx.cov["traces_validated_against_impl"] += 1
+    # output capacity: exactly enough succeeds with the same list, one less is refused (never written past the array:
+    # the harness allocates exactly outcap entries, visible to the sanitizer build)
+    clines = []
+    for g in gens:
+        if "full" in g and len(g["full"]) >= 2:
+            k = len(g["full"])
+            clines.append("G %sx %s - - %s 0 %d" % (g["id"], codec.params_str(g["params"]), codec.hx(g["x"]), k))
+            clines.append("G %sy %s - - %s 0 %d" % (g["id"], codec.params_str(g["params"]), codec.hx(g["x"]), k - 1))
+    cout, ccr = env.impl(clines)
+    for i, rc, err in ccr:
+        env.report(dict(kind="generateSequences", id=i, stderr=err[-800:]), what="c17_seq crashed in ZSTD_generateSequences with a small output array: %s" % err[-300:].replace("\n", " "))
+    for g in gens:
+        if "full" in g and len(g["full"]) >= 2 and g["id"] + "x" in cout:
+            a, b = cout.get(g["id"] + "x", ""), cout.get(g["id"] + "y", "")
+            ok = a.startswith("OK") and [q[:3] for q in ([tuple(int(v) for v in q.split(":")) for q in a.split(" ")[1].split(",")])] == g["full"]
+            if not ok or not b.startswith("ERR"):
+                env.report(dict(kind="generateSequences", params=g["params"], input_hex=g["x"].hex()[:200000], exact=a[:200], one_less=b[:200]),
+                           what="ZSTD_generateSequences output capacity: with exactly %d entries %s, with one less %s" % (len(g["full"]), a[:40], b[:60]))
+            else:
+                ctx.count(("generate-capacity", min(len(g["full"]), 3)), nontrivial=True)
     return qcases
 
 
